@@ -9,6 +9,7 @@ import HdModel.Model.StreamsDriver
 import HdModel.Model.PoolDriver
 import HdModel.Model.ServerDriver
 import HdModel.Model.TlsDriver
+import HdModel.Model.TlsPoolDriver
 import HdModel.Model.NoPanicDriver
 import HdModel.Model.E2EDriver
 /-! Line-protocol driver.  One case per line:
@@ -35,6 +36,7 @@ def handle (line : String) : String :=
     | "srv" :: rest => Server.driverLine rest obs
     | "srvk" :: rest => Server.kernelLine rest obs
     | "tls" :: rest => Tls.driverLine rest obs
+    | "tlsp" :: rest => TlsPool.driverLine rest obs
     | "np" :: rest => NoPanic.driverLine rest obs
     | "e2e" :: rest => E2E.driverLine rest obs
     | _ => (false, false, "unknown-stream", "")
